@@ -13,6 +13,7 @@ func init() {
 		Title: "Field and sink failures are contained and reported; the entry is never lost",
 		Fn:    checkC10,
 		Explanation: "Decides the containment structure: every call of a user value's String()/Error() that zap makes on a field payload happens in a function whose deferred closure itself calls recover() and converts the panic into the returned error or a \"<nil>\" string; every marshaler error reaches Field.AddTo's error test and becomes a '<key>Error' string field, and no encoder/marshaler error result is dropped anywhere; output stays well-formed on failure (array/object closers and the namespace bookkeeping are on every path incl. the error path; a reflected value is encoded BEFORE its key or separator is written and an encoding error returns before any write); CheckedEntry.Write, tees, multi-syncers and hook cores visit every element with no early exit and fold every error with multierr.Append; a non-nil aggregate is printed to ErrorOutput when set, with no panic on that path; ioCore.Write returns the sink's error; Logger.check threads the logger's error output into every entry that will be written. " +
+			"Also decided, by path exploration with the inner calls' outcomes forked: tees, multi-syncers and hooks return a non-nil error exactly when some inner call failed, whatever accumulates the errors; Config.Build lets the caller's options take effect after the configuration's (a caller-supplied ErrorOutput is the sink write failures are reported on). " +
 			"NOT decided: marshalers that panic themselves, the text of the messages.",
 		Assumptions: commonAssumptions,
 	}
@@ -729,7 +730,9 @@ func c10BuildOptionOrder(c *Ctx, rule string) {
 			}
 			return ""
 		},
-		Inline: func(h *ssa.Function) bool { return !strings.HasSuffix(h.String(), ".buildOptions") && h.Name() != "WithOptions" && h.Name() != "New" },
+		Inline: func(h *ssa.Function) bool {
+			return !strings.HasSuffix(h.String(), ".buildOptions") && h.Name() != "WithOptions" && h.Name() != "New"
+		},
 	})
 	if trunc || len(seqs) == 0 {
 		c.Und(rule, fn.String(), "caller-options-last", fn.Pos(), "path exploration incomplete (%d sequences)", len(seqs))
